@@ -79,7 +79,7 @@ def int_lexeme(draw, small=True, maxv=None):
 @st.composite
 def real_lexeme(draw, positive_only=True, moderate=True):
     """A FLOAT lexeme (REAL that is not a pure DIGIT run)."""
-    ip = draw(st.one_of(st.integers(0, 9), st.integers(0, 999)))
+    ip = draw(st.one_of(st.integers(0, 9), st.integers(0, 9), st.integers(0, 99), st.integers(0, 999)))
     lead = draw(st.sampled_from(["", "", "", "0"]))
     form = draw(st.sampled_from(["frac", "frac", "frac", "exp", "fracexp"]))
     s = lead + str(ip)
@@ -148,6 +148,7 @@ class Ctx:
     loopvar: Optional[tuple] = None                           # (name, vtype)
     used: set = field(default_factory=set)                    # all declared names (variables, loop vars)
     frozen: set = field(default_factory=set)                  # names that must not be redeclared
+    array_elems: Dict[str, list] = field(default_factory=dict)  # name -> (vtype, flat list of element expressions)
     depth: int = 3
     ascii_only: bool = True
 
@@ -425,6 +426,7 @@ def _forget(ctx, name):
         while name in lst:
             lst.remove(name)
     ctx.arrays.pop(name, None)
+    ctx.array_elems.pop(name, None)
 
 
 def _decl_name(draw, ctx):
@@ -484,6 +486,21 @@ def array_decl(draw, ctx, symbolic=None, name=None, max_rows=4, max_cols=5):
             ctx.arrays[name] = (vtype, r, c, True)
             return A.ArrayParamDecl(vtype, name, [str(r), str(c)], pn)
         sym = True
+        if r * c == 1:
+            c = 2      # a lone bare {p} is the whole-array form, which needs a declared shape
+    twins = sorted(n for n, (t, rr, cc, sy) in ctx.arrays.items() if not sy and n in ctx.array_elems and n != name)
+    if not sym and twins and draw(st.integers(0, 3)) == 0:
+        # same elements as an earlier array in another shape (1 x n, n x 1, transposed shape, ...)
+        src = draw(st.sampled_from(twins))
+        vtype, elems = ctx.array_elems[src]
+        n = len(elems)
+        shapes = [(a, n // a) for a in range(1, n + 1) if n % a == 0]
+        r, c = draw(st.sampled_from(shapes))
+        rows = [elems[i * c:(i + 1) * c] for i in range(r)]
+        ctx.used.add(name)
+        ctx.arrays[name] = (vtype, r, c, False)
+        ctx.array_elems[name] = (vtype, elems)
+        return A.ArrayDecl(vtype, name, [str(r), str(c)] if with_shape else None, rows)
     sub = Ctx(ints=ctx.ints, floats=ctx.floats, complexes=ctx.complexes, arrays={k: v for k, v in ctx.arrays.items()},
               depth=min(ctx.depth, 1))
     rows = []
@@ -505,6 +522,8 @@ def array_decl(draw, ctx, symbolic=None, name=None, max_rows=4, max_cols=5):
         rows[-1][-1] = F1(A.Param(draw(st.sampled_from(ctx.params))))
     ctx.used.add(name)
     ctx.arrays[name] = (vtype, r, c, sym)
+    if not sym:
+        ctx.array_elems[name] = (vtype, [e for row in rows for e in row])
     return A.ArrayDecl(vtype, name, [str(r), str(c)] if with_shape else None, rows)
 
 
